@@ -214,7 +214,12 @@ class Exec(ExprMixin, HeapMixin, StmtMixin, CallMixin, BuiltinMixin):
         for k, v in st.locals.items():
             if k not in o.locals:
                 o.locals[k] = v
+        n0 = len(o.pc)
         r = self.ev(e.args[0], o)
+        # facts produced while evaluating in the pre-state (definitions of lists built by old(xs[a:b]), allocatedness of
+        # what was read) speak about pre-state terms only and stay true: keep them for the current clause
+        for f in o.pc[n0:]:
+            self._spec_facts.append(f)
         rt = r.t.inner if isinstance(r.t, TOpt) else r.t
         if isinstance(rt, (TList, TDict, TSet)):
             # a mutable container named by old(...) denotes its *pre-state content*: later reads through this
@@ -531,6 +536,13 @@ class Exec(ExprMixin, HeapMixin, StmtMixin, CallMixin, BuiltinMixin):
     def spec_valid_utf8(self, e, st):
         v = self.ev(e.args[0], st)
         return V(BOOL, prelude().valid_utf8(v.z))
+
+    def spec_now(self, e, st):
+        """now(old(e)): the reference computed in the pre-state, read in the current state (identity for the prover,
+        where old(e) of object type already is the reference)."""
+        v = self.ev(e.args[0], st)
+        r = V(v.t, v.z)
+        return r
 
     def spec_same(self, e, st):
         """same(a, b): reference identity / primitive equality without __eq__."""
